@@ -22,4 +22,22 @@ echo "== existing tests of touched packages (demo removed)"
 rm -f $W/$PKG/zz_seed_demo_test.go
 PKGS=$(git diff --name-only | xargs -n1 dirname | sort -u | sed 's#^#./#')
 go test -count=1 $PKGS 2>&1 | tail -5
+if [ -n "$FULL" ]; then
+  echo "== pinned suite with the change (must print missing: 0)"
+  go test -mod=mod -json -vet=off -count=1 -timeout 25m ./... > /tmp/seedv/$NAME.suite.json 2>/dev/null
+  python3 - /tmp/seedv/$NAME.suite.json <<'PY'
+import json,sys
+base=json.load(open('/root/.vp/BASELINE.json'))
+passed=set()
+for line in open(sys.argv[1]):
+    try: e=json.loads(line)
+    except Exception: continue
+    if e.get('Test') and e.get('Action')=='pass':
+        passed.add(e['Package']+'::'+e['Test'])
+missing=[t for t in base['stable_pass'] if t not in passed]
+print('stable_pass:',len(base['stable_pass']),'missing:',len(missing))
+for t in missing[:20]: print('  MISSING',t)
+PY
+  rm -f /tmp/seedv/$NAME.suite.json
+fi
 cd /; git -C /repo worktree remove --force $W
